@@ -90,9 +90,16 @@ def plainText (s : String) : Bool := s.toList.all fun c => c != '"' && c != '\\'
 
 def inconclusive (impl : String) : Bool := (impl.splitOn "|dl?").length > 1
 
-def handle : Handler := fun input impl =>
+/-- a call that took implausibly long to arrive is printed with `dl?<s>` by the recorder: give it the benefit of the
+doubt on the deadline ONLY — substitute the expected deadline and judge everything else (counts, method, message,
+metadata, samples) as usual -/
+def fixDl (tmo : Nat) (impl : String) : String :=
+  match impl.splitOn "|dl?" with
+  | [] => impl
+  | h :: rest => h ++ String.join (rest.map fun p => "|" ++ dlText tmo ++ String.ofList (p.toList.dropWhile Char.isDigit))
+
+def handleCore : Handler := fun input impl =>
   let kv := parseKV input
-  if inconclusive impl then ("-", "skip:inconclusive-deadline") else
   -- the in-process server could not be started (no free port on a busy machine): nothing was observed
   if impl.startsWith "ENV" then ("-", "skip:environment") else
   match getS kv "mode" with
@@ -122,7 +129,7 @@ def handle : Handler := fun input impl =>
     if !(namesDistinct c.calls) then ("-", "skip:duplicate-call-names") else
     if !(c.users.all plainText && plainText c.g) then ("-", "skip:unmodelled-variable-text") else
     if getS kv "run" == "engine" then
-      ("-", judgeEngineScen c ((getN? kv "shots").getD 0) impl)
+      ("-", judgeEngineScen c ((getN? kv "n").getD 1) ((getN? kv "shots").getD 0) impl)
     else
       let sched := parseSched (getS kv "sched")
       match expectedSched c sched 0 [] [] with
@@ -139,5 +146,12 @@ def handle : Handler := fun input impl =>
           | _ => "-"
         (modelObs, verdict ++ (if inPlace == impl then " [observation equals the in-place (shared map) model]" else ""))
   | _ => ("-", "fail:driver:unknown mode")
+
+def handle : Handler := fun input impl =>
+  if inconclusive impl then
+    -- judged with the expected deadline substituted: a failure of anything else is still a failure
+    let (_, verdict) := handleCore input (fixDl (parseTmo (parseKV input)) impl)
+    if verdict == "ok" then ("-", "skip:inconclusive-deadline") else ("-", verdict)
+  else handleCore input impl
 
 end Pandora.Drv.C20
